@@ -51,7 +51,7 @@ func errCode(e error) (string, int) {
 
 func runC11(a *args) error {
 	r := newRng(a.seed)
-	st := newStats("(1) single-replica partitions: proposals (insert new / duplicate insert / remove absent / update) with the proposer held at the pause point between Propose and its select until the entry has been applied (forced) or not held (plain), deadline 400 ms; (2) 3-node clusters: Insert/Update/Remove through nodes that host or do not host the owner, with the owner reachable or not, right or wrong dimension; the item's presence on the owner is checked afterwards; (3) batches mixing valid, duplicate, absent and wrong-dimension items; non-trivial = forced cases and unreachable-owner cases; distinct by case parameters")
+	st := newStats("(1) single-replica partitions: proposals (insert new / duplicate insert / remove absent / update) with the proposer held at the pause point between Propose and its select until the entry has been applied (forced) or not held (plain), deadline 400 ms; (2) 3-node clusters: Insert/Update/Remove through nodes that host or do not host the owner, with the owner reachable or not, right or wrong dimension; the item's presence on the owner is checked afterwards; (3) batches mixing valid, duplicate, absent and wrong-dimension items; (3b) 72-item batches over 24 partitions on three nodes with one node cut off / undialable, then repeated (duplicates), then removed together with absent ids: an id without an error must have taken effect on its owner; non-trivial = forced cases and unreachable-owner cases; distinct by case parameters")
 	var nts []ntCase
 	var wrs []wrCase
 	// ---- (1) hand-shake
@@ -393,6 +393,120 @@ func runC11(a *args) error {
 			st.count("batch")
 		}
 		c.close()
+	}
+	// ---- (3b) wide batches: 24 single-replica partitions spread over three nodes, batches of 72 items through node 1.
+	// Round A with node 2 cut off (every id it owns must come back with an error, every id reported written must be on
+	// its owner), round B the same ids again with node 2 back (what is stored already must be reported, what was not
+	// is written), round C removes them together with ids that were never stored.  Many partitions answer at once and
+	// the unreachable ones fail before the collector is parked in its receive.
+	{
+		c4 := newSimCluster([]uint64{1, 2, 3})
+		var placement [][]uint64
+		for i := 0; i < 24; i++ {
+			placement = append(placement, []uint64{uint64(1 + i%3)})
+		}
+		meta4 := newDatasetMeta(r, 2, pb.Space_Euclidean, placement, 1)
+		if err := c4.createDataset(meta4); err != nil {
+			return err
+		}
+		dsid4 := uuid.FromBytesOrNil(meta4.Id)
+		ds := c4.nodes[1].datasets[dsid4]
+		ownerOf := func(id uuid.UUID) (uint64, int) {
+			p := ds.VerifOwnerIndex(id)
+			return placement[p][0], p
+		}
+		stored := func(id uuid.UUID) bool {
+			o, p := ownerOf(id)
+			_, e := c4.nodes[o].datasets[dsid4].VerifIndex(p).Get(id)
+			return e == nil
+		}
+		wide := 3
+		if a.tier == "thorough" {
+			wide = 12
+		}
+		for round := 0; round < wide; round++ {
+			var ids []uuid.UUID
+			var items []*pb.BatchItem
+			for k := 0; k < 72; k++ {
+				id := uuidFrom(r)
+				ids = append(ids, id)
+				items = append(items, &pb.BatchItem{Id: id.Bytes(), Value: []float32{float32(k), float32(round)}})
+			}
+			absent := []uuid.UUID{}
+			for k := 0; k < 24; k++ {
+				absent = append(absent, uuidFrom(r))
+			}
+			for _, phase := range []string{"A", "B", "C"} {
+				before := map[uuid.UUID]bool{}
+				for _, id := range append(append([]uuid.UUID(nil), ids...), absent...) {
+					before[id] = stored(id)
+				}
+				if phase == "A" {
+					c4.nodes[2].setUnreachable(true)
+					if round%2 == 1 {
+						ds.VerifDropClients(2)
+						c4.nodes[1].conn.RemoveNode(2)
+					}
+				}
+				ctx, cancel := context.WithTimeout(context.Background(), 8*time.Second)
+				var errs map[uuid.UUID]error
+				var err error
+				batch := items
+				if phase == "C" {
+					batch = nil
+					for _, id := range append(append([]uuid.UUID(nil), ids...), absent...) {
+						batch = append(batch, &pb.BatchItem{Id: id.Bytes()})
+					}
+					errs, err = ds.BatchRemove(ctx, batch)
+				} else {
+					errs, err = ds.BatchInsert(ctx, batch)
+				}
+				cancel()
+				if phase == "A" {
+					c4.nodes[2].setUnreachable(false)
+					if round%2 == 1 {
+						c4.nodes[1].conn.AddNode(2, "sim-2")
+						ds.VerifSetDataManagerClient(2, &memDataManagerClient{to: c4.nodes[2]})
+					}
+				}
+				st.count(fmt.Sprintf("wide-batch:%s:err=%v", phase, err != nil))
+				if err != nil {
+					// the whole call failed: nothing was acknowledged
+					continue
+				}
+				lost, over := 0, 0
+				example := ""
+				for _, it := range batch {
+					id := uuid.FromBytesOrNil(it.GetId())
+					reported := errs[id] != nil
+					now := stored(id)
+					var applied bool // did this call's item take effect?
+					if phase == "C" {
+						applied = before[id] && !now
+					} else {
+						applied = !before[id] && now
+					}
+					if !reported && !applied {
+						lost++
+						if example == "" {
+							o, p := ownerOf(id)
+							example = fmt.Sprintf("id %s (partition %d on node %d): stored before=%v after=%v, no error reported", id, p, o, before[id], now)
+						}
+					}
+					if reported && applied {
+						over++
+					}
+				}
+				in := map[string]interface{}{"round": round, "phase": phase, "partitions": 24, "items": len(batch)}
+				if lost > 0 {
+					st.ImplFailures = append(st.ImplFailures, implFailure{Case: round, What: fmt.Sprintf("wide batch, phase %s: %d of %d items were acknowledged (no error for their id) although they did not take effect, e.g. %s", phase, lost, len(batch), example), Key: "batch-acknowledged-not-applied", Input: in})
+				}
+				if over > 0 {
+					st.ImplFailures = append(st.ImplFailures, implFailure{Case: round, What: fmt.Sprintf("wide batch, phase %s: %d items that took effect were reported as failed", phase, over), Key: "batch-error-for-applied", Input: in})
+				}
+			}
+		}
+		c4.close()
 	}
 	// ---- render
 	var items []string
